@@ -263,7 +263,7 @@ SHARED_FILTERED = Contract(
 
 # ---------------------------------------------------------------- get_stateful_objects
 OBJ = 'Ref("TestObject")'
-WF_OBJECTS = "forall(self.objects, lambda o: o is not None)"
+WF_OBJECTS = "forall(self.objects, lambda o: o is not None and forall(o.composites, lambda c: c is not None))"
 
 
 def stateful(o, do="do"):
